@@ -239,6 +239,16 @@ def reject_part(ctx, fails):
         args[pos] = ctx.rng.choice([0, -1]) if pos < 2 else -abs(args[pos])
         for f in ('incidence_rate_ratio', 'incidence_rate_difference'):
             must_reject(f, args, 'args')
+    # negative person-time of less than one unit (-0.5 person-years is as negative as -5), in either arm and in both
+    for tbad in (-0.5, -0.25, -1e-3, -0.999):
+        for which in ((2,), (3,), (2, 3)):
+            args = [ctx.rng.randint(2, 40), ctx.rng.randint(2, 40), round(ctx.rng.uniform(1, 100), 2), round(ctx.rng.uniform(1, 100), 2)]
+            for ppos in which:
+                args[ppos] = tbad
+            ctx.evaluations += 1
+            ctx.count('reject:fractional negative person-time')
+            for f in ('incidence_rate_ratio', 'incidence_rate_difference'):
+                must_reject(f, args, 'args')
     # every NON-EMPTY set of bad positions (a table with two or four negative cells is as invalid as one with a single one), the bad
     # cells being negative or zero
     for k in range(1, 5):
